@@ -214,6 +214,17 @@ public final class HdwPrims {
         return tupleOf(keccak256(bytesOf(b)));
     }
 
+    // Keccak256Rep(prefix, b, n) = Keccak256(prefix \o [i \in 1..n |-> b]) without building the sequence in TLC
+    @TLAPlusOperator(identifier = "Keccak256Rep", module = "Prim", warn = false)
+    public static Value keccakRep(final Value prefix, final Value b, final Value n) {
+        byte[] pre = bytesOf(prefix);
+        int cnt = intOf(n);
+        byte[] all = new byte[pre.length + cnt];
+        System.arraycopy(pre, 0, all, 0, pre.length);
+        Arrays.fill(all, pre.length, all.length, (byte) intOf(b));
+        return tupleOf(keccak256(all));
+    }
+
     // ------------------------------------------------------------------ Unicode
 
     @TLAPlusOperator(identifier = "Nfkd", module = "Prim", warn = false)
